@@ -62,7 +62,13 @@ Schemas == <<
   [text |-> "{close({a?: int}), b?: int}",    t |-> Tree("open", {D("opt", "b", "int")}, {Emb("close", {D("opt", "a", "int")})})],
   [text |-> "#D: {a?: int, ...}",             t |-> Tree("def", {D("opt", "a", "int"), D("ell", "", "")}, {})],
   [text |-> "#D: {a?: 1, b!: int}",           t |-> Tree("def", {D("opt", "a", "1"), D("req", "b", "int")}, {})],
-  [text |-> "{b: 2}",                         t |-> Tree("open", {D("reg", "b", "2")}, {})]
+  [text |-> "{b: 2}",                         t |-> Tree("open", {D("reg", "b", "2")}, {})],
+  \* definitions reached through an embedding, and definitions whose value is a close() call,
+  \* still close the nested struct
+  [text |-> "#D: {a?: {b: int}}; {#D}",       t |-> Tree("open", {}, {Emb("def", {D("opt", "a", "N")})})],
+  [text |-> "#D: {a?: {b: int}}; {#D, b?: int}", t |-> Tree("open", {D("opt", "b", "int")}, {Emb("def", {D("opt", "a", "N")})})],
+  [text |-> "#D: close({a?: {b: int}}); {#D}", t |-> Tree("open", {}, {Emb("def", {D("opt", "a", "N")})})],
+  [text |-> "#D: close({a?: {b: int}})",      t |-> Tree("def", {D("opt", "a", "N")}, {})]
 >>
 NS == Len(Schemas)
 
